@@ -56,6 +56,14 @@ def make_case(ctx, rng, cid, window_prob=0.3):
         if nulls and rng.random() < 0.3:
             recs.append((fsgen.null_record(lay), None))
         rec, vals = fsgen.make_record(lay, i, sec, usec=usec, full_width=full, rng=rng)
+        if "ut_addr_v6" in vals and rng.random() < 0.5:
+            # remote address patterns: IPv4 (words 1..3 zero), IPv6 with zero runs in every position (::1, fe80::1, 2001:db8::N, ...)
+            w = [rng.choice([0, 0, 1, 0x0db80120, 0xfe800000, rng.getrandbits(32)]) for _ in range(4)]
+            if rng.random() < 0.4:
+                w = [rng.choice([0, 0x20010db8, 0xfe800000]), 0, 0, rng.choice([1, 2, 0x01000000, rng.getrandbits(32)])]
+            import struct as _st
+            vals = dict(vals, ut_addr_v6=_st.pack("<4I", *w))
+            rec = fsgen.pack(lay, vals)
         recs.append((rec, vals))
     if nulls and rng.random() < 0.5:
         recs.append((fsgen.null_record(lay), None))
